@@ -287,6 +287,16 @@ func runC18(t *rapid.T) {
 				allowed := err == nil
 				e.Result = fmt.Sprintf("allowed=%v", allowed)
 				bannedAt, banned := md.bannedAt[ip]
+				if allowed && !md.blacklisted[ip] && p0.VerifGater().VerifLockFree() {
+					// "accepted again with a clean score": whenever a gate lets an address in, what the gater holds
+					// against it is below the ban threshold - a ban that is over is forgotten, not merely ignored
+					if sc, _, known := p0.VerifGater().VerifScore(net.ParseIP(ip)); known && sc >= 100 {
+						log_ = append(log_, e)
+						fail("gate", "accepted-with-old-score", "connection with %s allowed at %v (ban of %v, %v long) while the gater still holds a score of %d against it", ip, now, bannedAt, expiry, sc)
+						return
+					}
+					simkit.Probe("c18_accepted_with_score_below_threshold")
+				}
 				switch {
 				case uncertain[ip] && !md.blacklisted[ip]:
 					// no verdict
